@@ -74,8 +74,10 @@ FN_MACROS = VIEW_MACROS + [Macro("done", ["a", "k"], "exists(i, 0, k, old(Kseq(c
 contract(F + "CorpusShufflingTool.false_neg_shuffle",
          params={"self": CST(), "continuum": CONT()}, modifies=["continuum"], macros=FN_MACROS,
          requires=["RI(continuum)", "not same_obj(continuum, self._reference_continuum)",
-                   "forall(k, 0, Nkeys(continuum), Cnt(continuum)[Kseq(continuum)[k]] >= 1)"],
+                   "forall([(a, Real)], implies(Ann(continuum)[a], exists([(u, Unit)], Us(continuum)[a][u])))"],
          ensures=[cl("Ann(continuum) == old(Ann(continuum))", "C19", name="same-annotators"),
+                  cl("forall([(a, Real)], implies(Ann(continuum)[a], exists([(u, Unit)], Us(continuum)[a][u])))", "C19",
+                     name="K2-no-annotator-left-empty-membership-form"),
                   cl("forall([(a, Real), (u, Unit)], implies(Us(continuum)[a][u], old(Us(continuum))[a][u]))", "C19", name="K4-only-removes-units"),
                   cl("forall([(a, Real)], implies(done(a, old(Nkeys(continuum))), nonempty(a)))", "C19", name="K2-no-annotator-left-empty"),
                   cl("RI(continuum)", "C19", name="RI")],
@@ -97,6 +99,11 @@ contract(F + "CorpusShufflingTool.false_neg_shuffle",
                                   "Cat(continuum) == old(Cat(continuum))",
                                   "RI(continuum)"])},
          hooks=[("before", "for annotator in continuum.annotators: ...", "model_inv wfmap(continuum)"),
+                ("before", "for annotator in continuum.annotators: ...",
+                 "assert forall(k, 0, Nkeys(continuum), Cnt(continuum)[Kseq(continuum)[k]] >= 1)"),
+                ("after", "for annotator in continuum.annotators: ...", "model_inv wfmap(continuum)"),
+                ("after", "for annotator in continuum.annotators: ...",
+                 "assert forall([(a, Real)], implies(Ann(continuum)[a], done(a, old(Nkeys(continuum)))))"),
                 ("before", "for unit in list(continuum[annotator]): ...", "UB = Us(continuum)"),
                 ("before", "security = ...", "model_inv wfmap(continuum)"),
                 ("before", "if len(continuum._annotations[annotator]) == 0: ...", "model_inv wfmap(continuum)")],
@@ -121,17 +128,22 @@ contract(F + "CorpusShufflingTool.shift_shuffle",
                   cl("SM >= 0 and forall([(a, Real), (v, Unit)], implies(Us(continuum)[a][v], exists([(u, Unit)], old(Us(continuum))[a][u] and near(u, v))))",
                      "C19", name="K4-every-unit-is-an-old-unit-of-the-same-annotator-moved-by-at-most-shift_max-label-kept"),
                   cl("implies(self.magnitude == 0, SM == 0)", "C19", name="K3-no-shift-at-magnitude-0"),
+                  cl("forall([(a, Real)], implies(exists([(u, Unit)], old(Us(continuum))[a][u]), exists([(v, Unit)], Us(continuum)[a][v])))", "C19",
+                     name="K2-no-annotator-becomes-empty"),
                   cl("RI(continuum)", "C19", name="RI")],
          loops={"L0": dict(match="for annotator in continuum.annotators", index="kA", modifies=["continuum"],
                            inv=["Ann(continuum) == old(Ann(continuum))", "RI(continuum)",
                                 "forall([(a, Real), (v, Unit)], implies(Us(continuum)[a][v], image_of_old(a, v)))",
-                                "forall([(a, Real)], implies(not done(a, kA), Us(continuum)[a] == U0[a]))"]),
+                                "forall([(a, Real)], implies(not done(a, kA), Us(continuum)[a] == U0[a]))",
+                                "forall([(a, Real)], implies(exists([(u, Unit)], U0[a][u]), exists([(v, Unit)], Us(continuum)[a][v])))"]),
                 "L0.0": dict(match="for unit in continuum[annotator]", index="jU", modifies=["continuum"], iter_name="SNAP",
                              inv=["Ann(continuum) == old(Ann(continuum))", "RI(continuum)", "Ann(continuum)[annotator]",
                                   "forall([(a, Real), (v, Unit)], implies(Us(continuum)[a][v], image_of_old(a, v)))",
                                   "forall([(a, Real)], implies(not done(a, kA) and a != annotator, Us(continuum)[a] == U0[a]))",
                                   "members(SNAP) == U0[annotator]",
-                                  "forall(j, jU, size(SNAP), Us(continuum)[annotator][seqof(SNAP)[j]])"]),
+                                  "forall(j, jU, size(SNAP), Us(continuum)[annotator][seqof(SNAP)[j]])",
+                                  "forall([(a, Real)], implies(a != annotator and exists([(u, Unit)], U0[a][u]), exists([(v, Unit)], Us(continuum)[a][v])))",
+                                  "implies(jU >= 1, exists([(v, Unit)], Us(continuum)[annotator][v]))"]),
                 "L0.0.0": dict(match="while start_seg >= end_seg",
                                inv=["implies(start_seg < end_seg, start_seg - unit.s <= SM and unit.s - start_seg <= SM and "
                                     "end_seg - unit.e <= SM and unit.e - end_seg <= SM)"])},
@@ -163,6 +175,7 @@ contract(F + "CorpusShufflingTool.splits_shuffle",
          ensures=[cl("Ann(continuum) == old(Ann(continuum))", "C19", name="same-annotators"),
                   cl("forall([(a, Real), (v, Unit)], implies(Us(continuum)[a][v], exists([(u, Unit)], old(Us(continuum))[a][u] and inside(u, v))))",
                      "C19", name="K4-every-unit-is-a-piece-of-an-old-unit-of-the-same-annotator-label-kept"),
+                  cl("forall([(a, Real)], implies(Ann(continuum)[a], exists([(u, Unit)], Us(continuum)[a][u])))", "C19", name="K2-no-annotator-becomes-empty"),
                   cl("RI(continuum)", "C19", name="RI")],
          loops={"L0": dict(match="for _ in range(int(self.magnitude * self.SPLIT_FACTOR * ...", modifies=["continuum"],
                            inv=["Ann(continuum) == old(Ann(continuum))", "RI(continuum)",
@@ -179,3 +192,50 @@ contract(F + "CorpusShufflingTool.splits_shuffle",
                 ("after", "to_split = ...", "assert U_before_pop(annotator, to_split)"),
                 ("before", "to_split = ...", "UP = Us(continuum)")],
          serves={"C19"})
+
+# ---- the two perturbations that stay outside the encoding (numpy statistics / transition matrices): ASSUMED set-level contracts,
+#      exercised by the bounded oracle of corpus_shuffle; what the composition below needs of them
+NONEMPTY_ALL = "forall([(a, Real)], implies(Ann(continuum)[a], exists([(u, Unit)], Us(continuum)[a][u])))"
+for _name, _extra, _note in (
+        ("false_pos_shuffle", [cl("forall([(a, Real), (u, Unit)], implies(old(Us(continuum))[a][u], Us(continuum)[a][u]))", "C19", name="K4-only-adds-units")],
+         "false positives only add units (labels drawn among the reference's categories)"),
+        ("category_shuffle", [cl("forall([(a, Real), (v, Unit)], implies(Us(continuum)[a][v], exists([(u, Unit)], old(Us(continuum))[a][u] and "
+                                 "u.s == v.s and u.e == v.e)))", "C19", name="K4-keeps-all-segments")],
+         "category shuffling re-labels units in place: every segment is an old segment of the same annotator")):
+    contract(F + "CorpusShufflingTool." + _name,
+             params={"self": CST(), "continuum": CONT()}, modifies=["continuum"], macros=VIEW_MACROS, trusted=True,
+             requires=["RI(continuum)", "not same_obj(continuum, self._reference_continuum)", NONEMPTY_ALL],
+             raises={"ValueError": {}},
+             ensures=[cl("Ann(continuum) == old(Ann(continuum))", "C19", name="same-annotators"), cl(NONEMPTY_ALL, "C19", name="K2-no-annotator-becomes-empty"),
+                      cl("RI(continuum)", "C19", name="RI")] + _extra,
+             notes="ASSUMED: " + _note, serves={"C19"})
+
+# K2: the corpus has exactly the requested annotators (plus the reference annotator when asked), none of them empty, for EVERY combination of flags
+CSH_MACROS = VIEW_MACROS + [Macro("ref", [], "self._reference_continuum"), Macro("ra", [], "self._reference_annotator"),
+                            Macro("isname", ["a"], "exists(k, 0, len(annotators), annotators[k] == a)")]
+contract(F + "CorpusShufflingTool.corpus_shuffle#names",
+         params={"self": CST(), "annotators": ListOf(StrT()), "shift": BoolT(), "false_pos": BoolT(), "false_neg": BoolT(), "split": BoolT(),
+                 "cat_shuffle": BoolT(), "include_ref": BoolT()}, returns=CONT(), modifies=[], macros=CSH_MACROS,
+         calls={"self.corpus_from_reference": F + "CorpusShufflingTool.corpus_from_reference#names"},
+         requires=["RI(ref())", "Ann(ref())[ra()]", "Cnt(ref())[ra()] >= 1", "ref().bound_inf <= ref().bound_sup", "NumUnits(ref()) >= 1",
+                   "Nkeys(ref()) >= 1", "Kseq(ref())[0] == ra()",
+                   "forall([(l, Real)], implies(Cat(ref())[l], members(self._categories)[l]))",
+                   "self.magnitude >= 0", "self.SHIFT_FACTOR == 2", "self.SPLIT_FACTOR == 2.5", "len(annotators) >= 1"],
+         raises={"ValueError": {}, "AssertionError": {"iff": "include_ref and isname(ra())"}},
+         ensures=[cl("fresh_obj(result) and disjoint_state(result, ref())", "C19 C14", name="independent"),
+                  cl("forall([(a, Real)], Ann(result)[a] == (isname(a) or (include_ref and a == ra())))", "C19",
+                     name="K2-exactly-the-requested-annotators-plus-the-reference-when-asked"),
+                  cl("forall([(a, Real)], implies(Ann(result)[a], exists([(u, Unit)], Us(result)[a][u])))", "C19", name="K2-no-annotator-is-empty"),
+                  cl("RI(result)", "C19", name="K2-only-valid-units-and-known-categories"),
+                  cl("implies(include_ref, forall([(u, Unit)], Us(result)[ra()][u] == Us(ref())[ra()][u]))", "C19",
+                     name="the-reference-annotator-carries-the-reference-units")],
+         loops={"L0": dict(match="for unit in self._reference_continuum[next(iter(self._reference_continuum.annotators))]", index="jR",
+                           modifies=["continuum"], iter_name="RSNAP",
+                           inv=["RI(continuum)", "forall([(a, Real)], Ann(continuum)[a] == (isname(a) or (jR >= 1 and a == ra())))",
+                                "forall([(a, Real)], implies(isname(a), exists([(u, Unit)], Us(continuum)[a][u])))",
+                                "forall([(u, Unit)], Us(continuum)[ra()][u] == exists(j, 0, jR, seqof(RSNAP)[j] == u))",
+                                "members(RSNAP) == Us(ref())[ra()] and size(RSNAP) == Cnt(ref())[ra()]"])},
+         hooks=[("after", "continuum = self.corpus_from_reference(annotators)", "model_inv wfmap(ref())"),
+                ("after", "continuum = self.corpus_from_reference(annotators)",
+                 "assert forall([(a, Real)], implies(Ann(continuum)[a], exists([(u, Unit)], Us(continuum)[a][u])))")],
+         serves={"C19", "C14"})
